@@ -140,10 +140,18 @@ def check_spec(case):
     fails += G.compare(spec, flat0, expected, sub='load-apostrophe' if tricky_sheet else 'load')
     # (b) fixed point
     d2 = m2.to_dict()
+    sure = guaranteed_placeholders(spec)
+    absent = sorted(k for k in sure if k not in {str(x).upper() for x in d1})
+    if absent and not tricky_sheet:
+        fails.append(('fixpoint|blank-placeholder-due-in-first-export', '%s: no placeholder in the first export although its rectangle has one blank left' % absent[:3]))
     if _norm(d2) != _norm(d1):
         diff = [k for k in sorted(set(d1) | set(d2), key=str) if _n1(d1.get(k, '<absent>')) != _n1(d2.get(k, '<absent>'))]
         for k in diff[:4]:
             if {repr(d1.get(k, '<absent>')), repr(d2.get(k, '<absent>'))} == {repr('<absent>'), repr('#EMPTY')}:
+                if str(k).upper() in sure and k not in d1:
+                    # not the listed drift (F37): this placeholder is due in the first model already
+                    fails.append(('fixpoint|blank-placeholder-due-in-first-export', '%s: absent from the first export, %r in the second' % (k, d2.get(k))))
+                    continue
                 fails.append(('fixpoint|blank-placeholder', '%s: first export %r, second export %r' % (k, d1.get(k, '<absent>'), d2.get(k, '<absent>'))))
                 continue
             fails.append(('fixpoint|%s' % _dclass(spec, k, d1.get(k, d2.get(k))), '%s: first export %r, second export %r' % (k, d1.get(k, '<absent>'), d2.get(k, '<absent>'))))
@@ -157,6 +165,36 @@ def check_spec(case):
     labels = _labels(spec)
     nt = tricky_sheet or any(l.startswith('const:text-') or l.startswith('const:num-') or l in ('form:array-formula', 'names') for l in labels)
     return R(_uniq(fails), nt=nt, n=4, labels=labels)
+
+
+def guaranteed_placeholders(spec):
+    """Blank cells that certainly get a placeholder in the FIRST model, whatever the iteration order: referenced rectangles
+    are handled in order of their number of unpopulated cells, and a rectangle with at most one unpopulated cell left
+    (placeholders of rectangles with strictly fewer blanks count as populated) materialises it.  -> set of upper-case node ids"""
+    pop = W.populated(spec)
+    names = spec.get('names', [])
+    rects = set()
+    for cell in spec['cells']:
+        if 'f' in cell:
+            for kind, x in W.refs_of(cell['f'], names):
+                if kind == 'cell':
+                    rects.add(tuple(x) + (x[2], x[3]))
+                elif kind == 'rect':
+                    rects.add(tuple(x))
+    for nm in names:
+        rects.add(tuple(nm['rect']))
+    miss = {}
+    for (b, s_, r1, c1, r2, c2) in rects:
+        m = {(b, s_, r, c) for r in range(r1, r2 + 1) for c in range(c1, c2 + 1)} - pop
+        if m:
+            miss[(b, s_, r1, c1, r2, c2)] = m
+    sure = set()
+    for n in sorted({len(m) for m in miss.values()}):
+        lower = set(sure)
+        for rect, m in miss.items():
+            if len(m) == n and len(m - lower) <= 1:
+                sure |= m - lower
+    return {G.node_id(spec, k) for k in sure}
 
 
 def _n1(v):
